@@ -1203,8 +1203,58 @@ def ci_context_failures() -> list[dict]:
     return out
 
 
+# literals that are different strings but look alike once printed (a line feed and backslash + n, …), in choices the optimizer
+# fuses, in one grammar and in grammars loaded one after the other: each rule accepts exactly its own alternatives
+
+
+def lookalike_failures() -> list[dict]:
+    from pest import Parser
+    import pyside as PS
+
+    def esc(x):        # the text of a pest string literal that denotes x
+        return '"' + "".join({"\n": "\\n", "\t": "\\t", "\r": "\\r", '"': '\\"', "\\": "\\\\"}.get(c, c) for c in x) + '"'
+
+    pairs = [("\n", "\\n"), ("\t", "\\t"), ("\r", "\\r"), ("\\", "\\\\")]
+    real = [a for a, _ in pairs]
+    written = [b for _, b in pairs]
+    rules = {"ws": real[:2], "esc": written[:2], "cr": [real[2], "a"], "crw": [written[2], "a"], "bs": [real[3], "b"], "bsw": [written[3], "b"]}
+    one = "\n".join(f"{n} = {{ {' | '.join(esc(x) for x in alts)} }}" for n, alts in rules.items())
+    grammars = [("one grammar", one, list(rules))]
+    for n, alts in rules.items():                      # … and each rule in a grammar of its own, loaded in this order
+        grammars.append((f"grammar of its own, loaded after the others ({n})", f"{n} = {{ {' | '.join(esc(x) for x in alts)} }}", [n]))
+    inputs = sorted({x for alts in rules.values() for x in alts} | {"\\", "n", "t", "r", ""})
+    out = []
+    for label, g, names in grammars:
+        try:
+            p0, p1 = Parser.from_grammar(g, optimizer=None), Parser.from_grammar(g)
+            modes = {"interp": p0.parse, "opt": p1.parse, "gen": PS.load_generated(p0.generate()).parse,
+                     "optgen": PS.load_generated(p1.generate()).parse}
+        except Exception as e:  # noqa: BLE001
+            out.append({"context": label, "grammar": g, "mode": "load", "input": "", "rule": names[0], "what": f"{type(e).__name__} while building the modes"})
+            continue
+        for n in names:
+            for text in inputs:
+                want = next((len(x) for x in rules[n] if text.startswith(x)), None)
+                for m, parse in modes.items():
+                    try:
+                        got = parse(n, text)[0].end
+                    except Exception:  # noqa: BLE001
+                        got = None
+                    if got != want:
+                        out.append({"context": label, "grammar": g, "mode": m, "input": text, "rule": n,
+                                    "what": f"rule {n} on {text!r}: matched length {got}, its alternatives {rules[n]!r} say {want}"})
+    return out
+
+
 def replay(out: Outcome, payload: dict) -> None:
     use_repo()
+    if payload.get("kind_of_case") == "lookalike":
+        out.coverage = {"explanation": "replay of the look-alike literal cases", "evaluations": 1, "distinct_nontrivial": 2}
+        for f in lookalike_failures():
+            if f["mode"] == payload.get("mode") and f["input"] == payload.get("input") and f["rule"] == payload.get("rule"):
+                out.violation(payload)
+                return
+        return
     if payload.get("kind_of_case") == "ci-context":
         out.coverage = {"explanation": "replay of the ^ literal context cases", "evaluations": 1, "distinct_nontrivial": 2}
         for f in ci_context_failures():
@@ -1413,6 +1463,10 @@ def run(out: Outcome) -> None:  # noqa: PLR0912, PLR0915
                        "input_repr": None if x.get("input") is None else repr("".join(map(chr, x["input"]))),
                        "expected": exp2, "observed": obs2, "reference_mode": x.get("reference_mode"), "what": x["what"],
                        "shrunk_from": c["grammar"], "seed": seed(), "command": "./check C12 --replay <this file>"})
+    for f in lookalike_failures()[:2]:
+        out.violation({"kind_of_case": "lookalike", **f, "expected": "each rule accepts exactly its own alternatives, in every mode",
+                       "observed": f["what"], "seed": seed(), "command": "./check C12 --replay <this file>"})
+        n_conc += 1
     ci_ctx = ci_context_failures()
     for f in ci_ctx[:2]:
         out.violation({"kind_of_case": "ci-context", **f, "rule": "r", "expected": "accepted in every mode", "observed": "rejected",
